@@ -32,6 +32,7 @@
 # external _imports
 from typing import Any, Callable, Union, Iterable, Optional
 from networkx import MultiDiGraph
+import re
 from sympy import Symbol, Expr, Function, Dummy, lambdify
 import numpy as np
 
@@ -1395,8 +1396,9 @@ class ComputeGraph(MultiDiGraph):
             if len(expr.args) < 2:
                 idx = self._get_var_idx(idx=(':',), args=index_args, apply=apply, **kwargs)
             else:
+                axis = expr.args[2] if len(expr.args) > 2 else 0   # index_axis(x, i) indexes the first dimension
                 idx = self._get_var_idx(args=index_args, apply=apply,
-                                        idx=tuple([':' for _ in range(expr.args[2])] + [f"{expr.args[1]}"]), **kwargs)
+                                        idx=tuple([':' for _ in range(axis)] + [f"{expr.args[1]}"]), **kwargs)
             func = "index_axis"
 
         # either apply the above indexing calls or return them
@@ -1404,7 +1406,8 @@ class ComputeGraph(MultiDiGraph):
             try:
                 replacement = self.backend.finalize_idx_str(var=self.get_var(var), idx=idx)
             except KeyError:
-                replacement = f"{var}{idx}"  # an indexed sub-expression (nested index call), not a variable
+                # an indexed sub-expression (nested index call, sum of vectors, function of a vector), not a variable
+                replacement = f"{var}{idx}" if re.fullmatch(r"[\w.]+(\[[^\[\]]*\])*", var) else f"({var}){idx}"
             expr_str = self._process_func_call(expr=expr_str, func=func, replacement=replacement)
 
         # handle other function calls
@@ -1597,9 +1600,18 @@ class ComputeGraph(MultiDiGraph):
     @staticmethod
     def _process_func_call(expr: str, func: str, replacement: str):
 
-        # identify start and end of the function call
+        # identify start and end of the function call (the closing parenthesis that matches the opening one: the
+        # arguments may contain calls and parenthesised expressions themselves)
         start = expr.find(f"{func}(")
-        end = expr[start:].find(')') + 1
+        depth, end = 0, len(expr) - start
+        for pos in range(start + len(func), len(expr)):
+            if expr[pos] == '(':
+                depth += 1
+            elif expr[pos] == ')':
+                depth -= 1
+                if depth == 0:
+                    end = pos + 1 - start
+                    break
 
         # replace part in expression string
         return expr.replace(expr[start:start + end], replacement)
